@@ -4,6 +4,10 @@ def run(tier, a=None):
     specs = [{'src': 'h_c03.cpp', 'defs': ['TAG=' + t]} for t in tg]
     specs += [{'src': 'h_c03.cpp', 'defs': ['TAG=' + t, 'ZERO_ROT'], 'filter': 'c03_logexp.*'} for t in tg if not t.startswith('R')]
     tr = [{'src': 'h_trunc.cpp', 'defs': ['TAG=' + t], 'filter': 'tr_log.*', 'ap_prefixes': ['log(']} for t in tg if not t.startswith('R')]
+    import props.common as pc, props.common2 as pc2
+    _o = pc.opts
+    pc.opts = lambda tier, a=None: dict(_o(tier, a), nonfinite_check=True)
+    pc2.opts = pc.opts
     return combined('C03', tier, a, specs, tr,
         'EXACT per path of log (small-angle / generic x quaternion hemisphere): M(exp(log X)) = M(X) for every symbolic unit X; rotation angle of log X at most pi (rational upper bound 3.1415926536); log(q) = log(-q) coefficient-wise; log(exp t) = t for rotation magnitude below pi (inverse polar axiom with its side obligations discharged by z3). TRUNC: log on its Taylor region within 1e-12*max(1,B) of the generic formula.',
         ['unit-norm rotation part (exact)', 'log(exp t)=t claimed for rotation magnitude < 3.1415926535 only', 'groups: ' + ','.join(tg)])
